@@ -207,6 +207,27 @@ def raw_docs(d):
     return docs
 
 
+def random_json(rng, depth=0):
+    """grammar-based random JSON value (text)."""
+    r = rng.random()
+    if depth > 2 or r < 0.45:
+        c = rng.randrange(9)
+        if c == 0:
+            return str(rng.choice([0, 1, -1, 5, 6, 7, 127, 128, 255, 256, -128, -129, 65535, 2**31, -2**31 - 1, 2**63, 2**64, 10**30]))
+        if c == 1:
+            return repr(rng.choice([0.0, 0.5, 5.5, -5.5, 1e10, 1e-10, 1e308, 5.0, 6.000001]))
+        if c == 2:
+            return rng.choice(["1e400", "-1e400", "1E2", "-0", "0.0", "-0.0", "1.0e0"])
+        if c == 3:
+            return rng.choice(["null", "true", "false"])
+        chars = [rng.choice(["a", "A", " ", "ß", "İ", "\\n", "\\t", "\\\"", "\\\\", "\\u00e9", "\\u2003", "é", "1", "\\u0000", "😀", "\\ud83d\\ude00"]) for _ in range(rng.randint(0, 5))]
+        return '"' + "".join(chars) + '"'
+    if r < 0.75:
+        return "[" + ",".join(random_json(rng, depth + 1) for _ in range(rng.randint(0, 3))) + "]"
+    keys = ["a", "f", "k", "x"]
+    return "{" + ",".join('"%s":%s' % (rng.choice(keys), random_json(rng, depth + 1)) for _ in range(rng.randint(0, 3))) + "}"
+
+
 def rows_deser(d, rng):
     q = tier() == "quick"
     vals = _vals(d, rng, 10 if q else 80, cap=24 if q else 200)
@@ -225,6 +246,13 @@ def rows_deser(d, rng):
             ins.append({"fmt": fmt, "pos": "field", "val": v})
     for (fmt, pos, raw) in raw_docs(d):
         ins.append({"fmt": fmt, "pos": pos, "raw": raw})
+    # grammar-based random JSON documents and random MessagePack byte strings (differential: reference vs newtype)
+    for _ in range(60 if q else 2000):
+        t = random_json(rng)
+        ins.append({"fmt": rng.choice(["json", "json_reader"]), "pos": rng.choice(["top", "vec", "opt", "field", "mapval", "tuple"]), "raw": {"text": t}})
+    for _ in range(40 if q else 1000):
+        hx = "".join("%02x" % rng.choice([rng.randrange(256), 0x91, 0xa1, 0xc0, 0xca, 0xcb, 0xcc, 0xd0, 0x05, 0x81]) for _ in range(rng.randint(1, 10)))
+        ins.append({"fmt": rng.choice(["msgpack", "msgpack_read"]), "pos": rng.choice(["top", "vec", "opt"]), "raw": {"hex": hx}})
     return [{"d": d["id"], "ep": "deser", "ins": ins}]
 
 
